@@ -630,86 +630,110 @@ func (r *Run) oracles(st eventlogger.Status, serr error, payload interface{}, st
 	if len(calls) > 0 {
 		rootEv = calls[0].In
 	}
-	match := func(order []int) (fails []Failure, ends []trav) {
-		f := func(prop, format string, a ...interface{}) {
-			fails = append(fails, Failure{Prop: prop, What: fmt.Sprintf(format, a...)})
-		}
-		used := map[*call]bool{}
-		for _, pi := range order {
-			ps := sc.Pipes[pi]
-			var prev *call
-			for k, id := range ps.Nodes {
-				var found *call
-				for _, c := range calls {
-					if used[c] || c.Node.spec.ID != id {
-						continue
-					}
-					if k == 0 {
-						if c.In != rootEv {
-							continue
-						}
-					} else if c.In != prev.Out || c.Enter < prev.Leave {
-						continue
-					}
-					found = c
-					break
-				}
-				if found == nil {
-					if k == 0 {
-						if !cancelled {
-							f("C01", "pipeline %s (%s) registered for type %s was not traversed", ps.PID, strings.Join(ps.Nodes, ","), sc.SendType)
-						}
-					} else if !cancelled {
-						f("C01", "pipeline %s: node %s (position %d) was not invoked although node %s returned an event", ps.PID, id, k+1, ps.Nodes[k-1])
-					}
-					break
-				}
-				used[found] = true
-				if k == 0 {
-					if string(found.InType) != sc.SendType {
-						f("C01", "first node saw type %q, sent %q", found.InType, sc.SendType)
-					}
-					if found.InPay != payload {
-						f("C01", "first node saw a different payload")
-					}
-					if found.InTime.IsZero() || (sc.StopTime && !found.InTime.Equal(stopped)) {
-						f("C01", "first node saw creation time %v", found.InTime)
-					}
-					if found.InFmtLen != 0 {
-						f("C01", "first node saw a non-empty format table")
-					}
-				}
-				prev = found
-				last := k == len(ps.Nodes)-1
-				if found.Err != nil {
-					ends = append(ends, trav{pipe: pi, ended: "warn:" + id})
-					break
-				}
-				if found.Out == nil || last {
-					ends = append(ends, trav{pipe: pi, ended: "complete:" + id, sinkEnd: found.Node.spec.Kind == "sink"})
-					break
-				}
-			}
-		}
+	// Exact search (backtracking) for an assignment of calls to pipeline positions with the fewest faults: with
+	// shared pass-through nodes many calls look alike (same node, same event pointer) and only their timing tells
+	// which traversal they belong to, so a greedy choice can paint itself into a corner.
+	type result struct {
+		fails []Failure
+		ends  []trav
+	}
+	var best *result
+	used := map[*call]bool{}
+	var curFails []Failure
+	var curEnds []trav
+	nodes := 0
+	var rec func(pi, k int, prev *call)
+	finish := func() {
+		fs := append([]Failure{}, curFails...)
 		for _, c := range calls {
 			if !used[c] {
-				f("C01", "node %s was invoked outside any traversal of a pipeline registered for %s (invoked twice, after its predecessor dropped/failed, with the wrong event, or for a foreign pipeline)", c.Node.spec.ID, sc.SendType)
+				fs = append(fs, Failure{Prop: "C01", What: fmt.Sprintf("node %s was invoked outside any traversal of a pipeline registered for %s (invoked twice, after its predecessor dropped/failed, with the wrong event, or for a foreign pipeline)", c.Node.spec.ID, sc.SendType)})
 			}
 		}
-		return fails, ends
-	}
-	var ends []trav
-	var best []Failure
-	first := true
-	permute(len(sc.Pipes), func(order []int) bool {
-		fs, es := match(order)
-		if first || len(fs) < len(best) {
-			best, ends, first = fs, es, false
+		if best == nil || len(fs) < len(best.fails) {
+			best = &result{fails: fs, ends: append([]trav{}, curEnds...)}
 		}
-		return len(fs) == 0
-	})
-	for _, f := range best {
-		fail(f.Prop, "%s", f.What)
+	}
+	rec = func(pi, k int, prev *call) {
+		nodes++
+		if best != nil && (len(best.fails) == 0 || len(curFails) >= len(best.fails) || nodes > 200000) {
+			return
+		}
+		if pi == len(sc.Pipes) {
+			finish()
+			return
+		}
+		ps := sc.Pipes[pi]
+		id := ps.Nodes[k]
+		tried := false
+		for _, c := range calls {
+			if used[c] || c.Node.spec.ID != id {
+				continue
+			}
+			if k == 0 {
+				if c.In != rootEv {
+					continue
+				}
+			} else if c.In != prev.Out || c.Enter < prev.Leave {
+				continue
+			}
+			tried = true
+			used[c] = true
+			nf := len(curFails)
+			if k == 0 {
+				if string(c.InType) != sc.SendType {
+					curFails = append(curFails, Failure{"C01", fmt.Sprintf("first node saw type %q, sent %q", c.InType, sc.SendType)})
+				}
+				if c.InPay != payload {
+					curFails = append(curFails, Failure{"C01", "first node saw a different payload"})
+				}
+				if c.InTime.IsZero() || (sc.StopTime && !c.InTime.Equal(stopped)) {
+					curFails = append(curFails, Failure{"C01", fmt.Sprintf("first node saw creation time %v", c.InTime)})
+				}
+				if c.InFmtLen != 0 {
+					curFails = append(curFails, Failure{"C01", "first node saw a non-empty format table"})
+				}
+			}
+			last := k == len(ps.Nodes)-1
+			switch {
+			case c.Err != nil:
+				curEnds = append(curEnds, trav{pipe: pi, ended: "warn:" + id})
+				rec(pi+1, 0, nil)
+				curEnds = curEnds[:len(curEnds)-1]
+			case c.Out == nil || last:
+				curEnds = append(curEnds, trav{pipe: pi, ended: "complete:" + id, sinkEnd: c.Node.spec.Kind == "sink"})
+				rec(pi+1, 0, nil)
+				curEnds = curEnds[:len(curEnds)-1]
+			default:
+				rec(pi, k+1, c)
+			}
+			curFails = curFails[:nf]
+			used[c] = false
+			if best != nil && len(best.fails) == 0 {
+				return
+			}
+		}
+		// the position has no call
+		if !tried || cancelled {
+			nf := len(curFails)
+			if !cancelled {
+				if k == 0 {
+					curFails = append(curFails, Failure{"C01", fmt.Sprintf("pipeline %s (%s) registered for type %s was not traversed", ps.PID, strings.Join(ps.Nodes, ","), sc.SendType)})
+				} else {
+					curFails = append(curFails, Failure{"C01", fmt.Sprintf("pipeline %s: node %s (position %d) was not invoked although node %s returned an event", ps.PID, id, k+1, ps.Nodes[k-1])})
+				}
+			}
+			rec(pi+1, 0, nil)
+			curFails = curFails[:nf]
+		}
+	}
+	rec(0, 0, nil)
+	var ends []trav
+	if best != nil {
+		ends = best.ends
+		for _, f := range best.fails {
+			fail(f.Prop, "%s", f.What)
+		}
 	}
 
 	// ---- C02: the Status accounts for what the traversals did
@@ -784,27 +808,4 @@ func (r *Run) oracles(st eventlogger.Status, serr error, payload interface{}, st
 			fail("C02", "Send's error wraps a context error although the context was never cancelled")
 		}
 	}
-}
-
-// permute calls fn with every permutation of 0..n-1 until fn returns true.
-func permute(n int, fn func([]int) bool) {
-	a := make([]int, n)
-	for i := range a {
-		a[i] = i
-	}
-	var rec func(k int) bool
-	rec = func(k int) bool {
-		if k == n {
-			return fn(append([]int{}, a...))
-		}
-		for i := k; i < n; i++ {
-			a[k], a[i] = a[i], a[k]
-			if rec(k + 1) {
-				return true
-			}
-			a[k], a[i] = a[i], a[k]
-		}
-		return false
-	}
-	rec(0)
 }
